@@ -19,7 +19,7 @@ SPECDIR = SPECS / "lossy"
 
 CONCS = {"str": lambda i: "k%d" % i, "int": lambda i: 500 + i, "tuple": lambda i: ("t", i),
          # keys of several types that cannot be ordered against each other
-         "mixed": lambda i: ("m%d" % i, 700 + i, ("t", i), None if i == 4 else float(i) + 0.5)[i % 4]}
+         "mixed": lambda i: ("m%d" % i, 700 + i, ("t", i), None if i == 3 else float(i) + 0.5)[i % 4]}
 
 
 class Driver(GenericAdapter):
@@ -47,7 +47,7 @@ class Driver(GenericAdapter):
     def variants(self, op):
         if op["op"] == "update_counts" and self.name == "str":
             # one call mixing the argument forms: mapping + keyword counts (a key in both adds up), iterable + keyword counts
-            return ["update_map", "update_kw", "update_map_kw", "update_iter_kw"]
+            return ["update_map", "update_kw", "update_kwonly", "update_map_kw", "update_iter_kw"]
         return ["add", "update_iter", "update_map", "update_kw" if self.name == "str" else "update_gen"]
 
     def step(self, tc, op, variant):
@@ -60,6 +60,8 @@ class Driver(GenericAdapter):
                 d = {K(k): c for k, c in op["kc"]}
                 if variant == "update_kw":
                     tc.update(None, **d)
+                elif variant == "update_kwonly":
+                    tc.update(**d)
                 elif variant == "update_map_kw":
                     m_ = {k: c // 2 if i % 2 == 0 else c for i, (k, c) in enumerate(d.items())}
                     kw_ = {k: c - m_[k] for k, c in d.items() if c - m_[k] > 0 or k in list(d)[:1]}
@@ -69,6 +71,22 @@ class Driver(GenericAdapter):
                     tc.update([k for k, c in first for _ in range(c // 2)], **{k: (c - c // 2 if (k, c) in first else c) for k, c in d.items()})
                 else:
                     tc.update(d)
+            elif variant == "add_failing":
+                # an addition that cannot be made (unhashable key) is not an addition; the counter stays usable
+                try:
+                    tc.add([K(ks[0])] if ks else [])
+                    raise core.MachineryError("unhashable key accepted")
+                except TypeError:
+                    pass
+                for k in ks:
+                    tc.add(K(k))
+            elif variant == "update_failing":
+                # the iterable breaks off after its first keys: exactly those were added
+                try:
+                    tc.update([K(k) for k in ks] + [[], K(1)])
+                    raise core.MachineryError("unhashable key accepted")
+                except TypeError:
+                    pass
             elif variant == "update_map" and len(ks) == 1:
                 tc.update({K(ks[0]): 1})
             elif variant == "update_kw" and len(ks) == 1:
@@ -192,7 +210,10 @@ def stream(op):
 
 # ------------------------------------------------------------------ traces
 
-THRESH = [(1, 2), (1, 3), (3, 10), (13, 50), (1, 4), (1, 5), (1, 7), (1, 10), (1, 100), (1, 1000)]
+THRESH = [(1, 2), (1, 3), (3, 10), (13, 50), (1, 4), (1, 5), (1, 7), (1, 10), (3, 5), (99, 100), (1, 100), (1, 1000)]
+# thresholds given to the counter as floats whose exact reciprocal has a smaller floor than the fraction suggests
+# (float(1/93) > 1/93, so floor(1/threshold) is 92): the specification gets the exact floor
+FLOATY = {(1, 93): (1, 92), (1, 99): (1, 98), (1, 105): (1, 104)}
 
 
 def adversarial(W, n_add):
@@ -288,9 +309,15 @@ def record(n, seed, thorough, harmonic_only=False, given=None):
     rng = random.Random(seed)
     traces = []
     for t in range(len(given) if given else n):
-        tp, tq = rng.choice(THRESH[:8] if not thorough else THRESH)
+        tp, tq = rng.choice(THRESH[:10] if not thorough else THRESH)
         if t < len(THRESH) and (thorough or THRESH[t][1] <= 100):
             tp, tq = THRESH[t]
+        real_thr = tp / tq
+        if not harmonic_only and not given and t % 11 == 10:
+            (ftp, ftq), (tp, tq) = rng.choice(sorted(FLOATY.items()))
+            real_thr = ftp / ftq
+            from fractions import Fraction
+            assert int(1 / Fraction(real_thr)) == tq
         if harmonic_only:
             tp, tq = HARMONIC[t % len(HARMONIC)]
         W = tq // tp
@@ -314,7 +341,7 @@ def record(n, seed, thorough, harmonic_only=False, given=None):
             s = [min(int(rng.paretovariate(1.1)), 4 * W + 5) for _ in range(n_add)]
         nkeys = max(s)
         from boltons.cacheutils import ThresholdCounter
-        tc = ThresholdCounter(threshold=tp / tq)
+        tc = ThresholdCounter(threshold=real_thr if not (harmonic_only or given) else tp / tq)
         evs = []
         i = 0
         step = 0
@@ -339,7 +366,9 @@ def record(n, seed, thorough, harmonic_only=False, given=None):
                         kc.append([k, rng.randint(0, 3)])
                 op = {"op": "update_counts", "k": 0, "ks": [], "kc": kc}
             variant = rng.choice(drv.variants(op))
-            if op["op"] == "update_counts" and variant not in ("update_kw", "update_map_kw", "update_iter_kw"):
+            if op["op"] in ("add", "update_keys") and rng.random() < 0.04:
+                variant = "add_failing" if op["op"] == "add" else "update_failing"
+            if op["op"] == "update_counts" and variant not in ("update_kw", "update_kwonly", "update_map_kw", "update_iter_kw"):
                 variant = "update_map"
             tc, got = drv.step(tc, op, variant)
             full = (step % 25 == 0) or i >= len(s) or nkeys <= 12 or (kind == "harmonic" and nkeys <= 80)
